@@ -11,3 +11,13 @@ def c06_bounds_invalid_cell(rec):
 def c06_bounds_invalid_face_ugrid(rec):
     case = rec.get('case') or {}
     return rec['what'].startswith('bounds ') and case.get('family') == 'ugrid' and bool(case.get('invalid_cells'))
+
+
+def c10_edge_face_only(rec):
+    """edge_face_connectivity supplied, but neither edge_node nor face_edge: nothing in the file says which node pair
+    edge e is, the code numbers the derived edge_node / face_edge rows on its own and the supplied edge_face rows
+    (file numbering) no longer line up with them"""
+    case = rec.get('case') or {}
+    sup = set(case.get('supplied') or [])
+    return ('edge_face' in sup and 'edge_node' not in sup and 'face_edge' not in sup
+            and rec['what'].startswith('tables disagree'))
